@@ -27,7 +27,8 @@ type Case struct {
 }
 
 func baseOpts(thorough bool) gen.Opts {
-	o := gen.Opts{MinTips: 4, MaxTips: 10, BigTips: 24, Rooted: -1, MaxDeg: 5, Lens: gen.AnyPresence, LenVals: gen.DyadicZ}
+	// supports present on the input trees (e.g. values of an earlier analysis) must be replaced, not accumulated
+	o := gen.Opts{MinTips: 4, MaxTips: 10, BigTips: 24, Rooted: -1, MaxDeg: 5, Lens: gen.AnyPresence, LenVals: gen.DyadicZ, Sups: gen.AnyPresence, InnerNames: gen.None}
 	if thorough {
 		o.BigTips = 80
 	}
